@@ -4,6 +4,7 @@ import (
 	"fmt"
 	"math"
 	"math/big"
+	"strings"
 
 	"verifharness/fw"
 	"verifharness/refdec"
@@ -29,6 +30,9 @@ func (c12) Gen(tier string, seed int64) []fw.Unit {
 	var us []fw.Unit
 	take := func(src []fw.Unit, every int, tagPrefix string) {
 		for i, u := range src {
+			if strings.HasPrefix(u.Fn, "qrpair") || strings.HasPrefix(u.Fn, "collide") {
+				continue
+			}
 			if i%every == 0 {
 				u.Tag = tagPrefix + u.Tag
 				u.Fn = "ecc:" + u.Fn[indexColon(u.Fn)+1:]
